@@ -254,6 +254,43 @@ func init() {
 				}
 			}},
 			{ID: "R4", Desc: "refusal carries ConditionalCheckFailedException; v2 maps it to the SDK type with Item (T-TABLE)", Run: c05R4},
+			{ID: "R6", Desc: "verdict and write happen in one critical section of the client mutex (lockset, shared with C11)", Run: func(e *Engine) {
+				cs := e.coreModel()
+				if !e.anchor("R6", "core model", cs == nil) {
+					return
+				}
+				for _, role := range clientRoles {
+					lr := e.lockAnalysis(role)
+					ms := e.clientMethods(role)
+					for _, op := range []string{"PutItem", "UpdateItem", "DeleteItem"} {
+						fn := ms[op]
+						if fn == nil {
+							e.fail("R6", role+".Client."+op+":atomic", "-", "method missing")
+							continue
+						}
+						muts := coreMutatorCalls(e, cs, fn)
+						ok := len(muts) > 0
+						why := ""
+						for _, m := range muts {
+							if lr.at[m] != lsHeld {
+								ok, why = false, fmt.Sprintf("the engine call that evaluates the condition and writes (%s) runs with Client.mu %s", e.fname(m.Call.StaticCallee()), lr.at[m])
+							}
+						}
+						for _, u := range lr.unlocks[fn] {
+							for _, m := range muts {
+								if mayFollow(u, m) {
+									ok, why = false, "the mutex is released before the engine call"
+								}
+							}
+						}
+						if ok {
+							e.pass("R6", role+".Client."+op+":atomic", e.pos(fn.Pos()), "the engine call that decides the condition and performs the write runs entirely under Client.mu: no other call can interleave between verdict and write")
+						} else {
+							e.fail("R6", role+".Client."+op+":atomic", e.pos(fn.Pos()), "%s: another call can change the item between the verdict and the write (two racing attribute_not_exists puts both succeed)", why)
+						}
+					}
+				}
+			}},
 			{ID: "R5", Desc: "all three write operations hand their condition to core (T-FLOW)", Run: func(e *Engine) {
 				evs := e.conditionEvaluators()
 				for _, op := range []string{"Put", "Update", "Delete"} {
